@@ -8,6 +8,7 @@ package main
 // cache and peer table unchanged.
 
 import (
+	"sync/atomic"
 	"context"
 	"crypto/sha256"
 	"fmt"
@@ -47,15 +48,15 @@ func (nopHooks) PostWebhookNewTransaction([]string, string)      {}
 type stubClient struct {
 	pb.GossipAPIClient
 	vertex *pb.Vertex
-	got    int
+	got    atomic.Int64
 }
 
 func (s *stubClient) GossipVrx(ctx context.Context, in *pb.VrxMsgGossip, _ ...grpc.CallOption) (*emptypb.Empty, error) {
-	s.got++
+	s.got.Add(1)
 	return &emptypb.Empty{}, nil
 }
 func (s *stubClient) GossipTrx(ctx context.Context, in *pb.TrxMsgGossip, _ ...grpc.CallOption) (*emptypb.Empty, error) {
-	s.got++
+	s.got.Add(1)
 	return &emptypb.Empty{}, nil
 }
 func (s *stubClient) GetVertex(ctx context.Context, in *pb.SignedHash, _ ...grpc.CallOption) (*pb.Vertex, error) {
